@@ -10,7 +10,7 @@ def register(reg):
     # It may change the parse state and the caches and may raise anything; it does not assign the configuration
     # (frame scan F:config-assigned-only-by-bound in props/C10.py)
     contract(reg, 'BOUNDBODY', ['C09', 'C10'], {'f': 'func:BOUNDBODY', 'ctx': 'Ctx'}, ret='Val', generic=True,
-             modifies=['ctx.states', 'ctx._memos', 'ctx._results', 'ctx.keywords', 'ctx.semantics', 'ctx.tracer'],
+             modifies=['ctx.states', 'ctx._memos', 'ctx._results', 'ctx.keywords', 'ctx.semantics', 'ctx.tracer', 'ctx.ghost_recorded', 'ctx.ghost_stamped'],
              requires=['len(ctx.states.state_stack) >= 1'], wf=False,
              ensures=[], raises={'BaseException': []},
              note='with-body of bound(): arbitrary effects on parse state and caches, any exception')
@@ -44,7 +44,7 @@ def register(reg):
                       f'spec_cfg_same_but_semantics(self._active_config, {L})',
                       'self._config == old_self._config'],
             requires=['self._active_config == self._config', 'isinstance(settings, dict)', "'start' not in settings"],
-            modifies=['self._active_config', 'self._memos', 'self._results', 'self.states', 'self.keywords', 'self.semantics', 'self.tracer', 'self.textlen'],
+            modifies=['self._active_config', 'self._memos', 'self._results', 'self.states', 'self.keywords', 'self.semantics', 'self.tracer', 'self.textlen', 'self.ghost_recorded', 'self.ghost_stamped'],
             ensures=[('property', 'self._active_config == self._config'), ('property', 'self._config == old_self._config')],
             raises={'BaseException': ['self._active_config == self._config', 'self._config == old_self._config']},
             propagates=['self._active_config == self._config', 'self._config == old_self._config'])
@@ -58,7 +58,7 @@ def register(reg):
             reg, f'{E}:ParserEngine.parse{variant}', ['C10'],
             {'self': 'Ctx', 'text': tsort, 'start': 'Val', 'config': 'any', 'asmodel': 'bool', 'settings': 'Val'}, ret='Val',
             requires=['self._active_config == self._config', 'isinstance(settings, dict)', "'start' not in settings"],
-            modifies=['self._active_config', 'self._memos', 'self._results', 'self.states', 'self.keywords', 'self.semantics', 'self.tracer', 'self.textlen'],
+            modifies=['self._active_config', 'self._memos', 'self._results', 'self.states', 'self.keywords', 'self.semantics', 'self.tracer', 'self.textlen', 'self.ghost_recorded', 'self.ghost_stamped'],
             ensures=[('property', 'self._active_config == self._config'), ('property', 'self._config == old_self._config')],
             raises={'BaseException': ['self._active_config == self._config', 'self._config == old_self._config']},
             propagates=['self._active_config == self._config', 'self._config == old_self._config'])
